@@ -121,6 +121,14 @@ Definition refused_ok (st : state) (o : op) (r : result) (st' : state) : bool :=
   | _, _ => true
   end.
 
+(* the publish of a closing connection (its will, published by the connection's cleanup) is never refused: a will —
+   retained or not — is always accepted *)
+Definition closing_accepted_ok (st : state) (o : op) (r : result) (st' : state) : bool :=
+  match o, r with
+  | OPublish c _ _, RQueueFull => negb (mem_n c (st_dying st))
+  | _, _ => true
+  end.
+
 (* C11: wherever a queue grew by a Publish, the new last element has retain = false *)
 Definition live_copy_ok (st : state) (o : op) (r : result) (st' : state) : bool :=
   match o with
